@@ -24,7 +24,7 @@ LEVEL_NOTE = 'Crashes are observable only at actor calls and Python line boundar
 TECHNIQUE = 'deterministic simulation: crash injection at event/line indices, recovery from a simulated durable store'
 DESIGN_REF = 'DESIGN.md 4.5, 7.2'
 BUDGET = {
-    "quick": {"plans": 2000, "wall": 90, "chunk": 4},
+    "quick": {"plans": 1200, "wall": 90, "chunk": 4},
     "thorough": {"plans": 12000, "wall": 900, "chunk": 8},
 }
 RULE = (
@@ -129,7 +129,7 @@ def execute(plan):
     # ---- uninterrupted references R_k
     R = {}
     kmax = max([r["iter"] for r in A.states], default=0)
-    for k in range(1, min(kmax, K) + 2):
+    for k in range(1, min(kmax, K) + 3):
         ck = dict(cfg)
         ck["callback"] = None
         ck["maxiter"] = k
@@ -227,6 +227,25 @@ def execute(plan):
                 if verdict == "ok" and act.result.nit != ref.result.nit:
                     verdict, info = "fail_nit", {"restart_nit": int(act.result.nit), "reference_nit": int(ref.result.nit)}
                 recovered_cache[k] = (verdict, info)
+                # the continuation, not only its first step (exact gradients, and only when the newest
+                # retained point is the state's x: see DESIGN 12.3)
+                ups = [u for u in A.up_log if u[0] <= rec["event"]]
+                ref2 = R.get(k + 2)
+                if (
+                    verdict == "ok"
+                    and cfg["jac"] == "callable"
+                    and ups
+                    and ups[-1][1]
+                    and ref2 is not None
+                    and ref2.result.nfev > ref.result.nfev
+                ):
+                    v2, info2, _a2 = compare_restart(
+                        problem, cfg, store.eager[-1], np.asarray(ref2.result.x, dtype=float), k + 2,
+                        plan["crash_seed"] + 7 * k, stats, ref_act=ref2, rel_step_tol=1e-5,
+                    )
+                    stats["or.recovery_second_iterate"] += 1
+                    if v2 == "fail":
+                        add("recovery.second_iterate", {"k": k, "event": e, **info2})
                 if verdict == "raised":
                     add("recovery.raised", {"k": k, "event": e, **info})
                 elif verdict == "fail":
